@@ -411,6 +411,7 @@ func (t *Teddy) FindMatch(haystack []byte, start int) (int, int) {
 
 	// Process candidates
 	for pos != -1 {
+		bestID := -1
 		// Iterate through all set bits in bucket mask (like Rust's verify64)
 		for bucketMask != 0 {
 			// Find lowest set bit (bucket ID)
@@ -420,11 +421,17 @@ func (t *Teddy) FindMatch(haystack []byte, start int) (int, int) {
 			// Verify patterns in this specific bucket
 			matchPos, patternID := t.verifyBucket(haystack[accumulatedOffset:], pos, bucket)
 			if matchPos != -1 && patternID >= 0 && patternID < len(t.patterns) {
-				// Match found! Return absolute start and end
-				matchStart := start + accumulatedOffset + matchPos
-				matchEnd := matchStart + len(t.patterns[patternID])
-				return matchStart, matchEnd
+				// Several buckets can match at this position (one literal is a prefix of
+				// another). The leftmost-first alternative is the one with the smallest
+				// pattern index, which is not necessarily in the lowest bucket.
+				if bestID < 0 || patternID < bestID {
+					bestID = patternID
+				}
 			}
+		}
+		if bestID >= 0 {
+			matchStart := start + accumulatedOffset + pos
+			return matchStart, matchStart + len(t.patterns[bestID])
 		}
 
 		// No match at this candidate in any bucket, continue searching
